@@ -258,7 +258,13 @@ fn run_pipeline(v: &Value, out: &mut Vec<String>) {
     let sout = v["stdout"].as_str().unwrap_or("inherit");
     let serr = v["stderr"].as_str().unwrap_or("inherit");
     // "config_after": m -- the redirections are set when the pipeline has m commands; the others are appended afterwards
-    let (mut p, later) = build_pipeline_upto(v, v["config_after"].as_u64().map(|m| m as usize));
+    // "split_config": the pipeline is the composition (a | b ..) | (.. y | z) of two pipelines; where its input comes
+    // from (and the error sink) was configured on the left one, where its output goes on the right one
+    let split = v["split_config"].as_bool().unwrap_or(false);
+    let (mut p, later) = build_pipeline_upto(
+        v,
+        if split { Some(v["n"].as_u64().unwrap() as usize / 2) } else { v["config_after"].as_u64().map(|m| m as usize) },
+    );
     let inpath = tmpfile("in.txt");
     let outpath = tmpfile("out.txt");
     let errpath = tmpfile("err.txt");
@@ -274,17 +280,35 @@ fn run_pipeline(v: &Value, out: &mut Vec<String>) {
         "null" => p = p.stdin(NullFile),
         _ => {}
     }
-    match sout {
-        "file" => p = p.stdout(File::create(&outpath).unwrap()),
-        "pipe" => p = p.stdout(Redirection::Pipe),
-        "null" => p = p.stdout(NullFile),
-        _ => {}
-    }
     if serr == "file" {
         p = p.stderr_to(File::create(&errpath).unwrap());
     }
-    for e in later {
-        p = p | e;
+    let set_out = |q: Pipeline| -> Pipeline {
+        match sout {
+            "file" => q.stdout(File::create(&outpath).unwrap()),
+            "pipe" => q.stdout(Redirection::Pipe),
+            "null" => q.stdout(NullFile),
+            _ => q,
+        }
+    };
+    if split {
+        let mut it = later.into_iter();
+        let mut right = it.next().unwrap() | it.next().unwrap();
+        for e in it {
+            right = right | e;
+        }
+        p = p | set_out(right);
+    } else {
+        p = set_out(p);
+        for e in later {
+            p = p | e;
+        }
+    }
+    // "clone_run": the configured pipeline is a template; what is run is a clone of it (the template is gone by then)
+    if v["clone_run"].as_bool().unwrap_or(false) {
+        let q = p.clone();
+        drop(p);
+        p = q;
     }
     let pre = fd_table();
     out.push(json!({"e":"pre","fds":pre}).to_string());
